@@ -32,6 +32,7 @@
 import Csvq.Lemmas.Csv
 import Csvq.Lemmas.CsvRect
 import Csvq.Lemmas.Ltsv
+import Csvq.Lemmas.Fixed
 namespace Csvq.C02
 open Csvq.Csv
 
@@ -509,5 +510,208 @@ example : ¬ LtsvSpellable ⟨[['a', ' ', 'b']], [[.str ['x']]]⟩ := by decide
 example : ¬ LtsvSpellable ⟨[['a']], [[.str ['x', '\t', 'y']]]⟩ := by decide
 
 end L
+
+/-! ## fixed-length
+
+  Positions are byte positions; `wd` = byte size of a character in the file's encoding, any function
+  with `1 ≤ wd c` and `wd ' ' = 1` (UTF-8 and Shift_JIS; NOT UTF-16, where the writer pads with
+  two-byte blanks but counts them as one byte — law roundtrip:fixed:utf16_padding of the harness).
+  Proved for EXPLICIT delimiter positions `P` (same `P` for writing and reading):
+    `fixed_refuse_or_spell`   the writer answers with an error exactly when the positions do not
+                              increase or a text is longer than its column;
+    `fixed_roundtrip_partial` whatever it does write reads back as `canon` (edge blanks dropped,
+                              empty = NULL, `__@i__` for nameless columns) — under "no text contains
+                              CR or LF";
+    `fixed_rectangular`       for ALL inputs and ALL positions the loaded records have |P| fields.
+  Full statement (no restriction on the characters of a text, a text the format cannot spell is
+  refused):   fixed_roundtrip : FixedSpellable o P t → fileFixed wd o t = ok b →
+                                decodeFixed wd o P b = ok (canon o t)      with NoBreak removed.
+  It FAILS on the pinned code, confirmed on the real code:
+    (F16) a text containing CR/LF is written as it is and splits the record
+                                                  [roundtrip:fixed:linebreak_in_cell]
+          → `fixed_linebreak_counterexample`
+    (F16) automatic positions: a column whose texts are all empty (no header) has width 0, the
+          generated positions do not increase and the writer refuses the table
+                                                  [roundtrip:fixed:empty_column]
+          → `fixed_empty_column_counterexample`
+  Automatic detection of the positions when READING (`Delimiter.Delimit`) is a heuristic and is not
+  modelled: harness laws only (roundtrip:fixed:automatic_positions, …cr_line_break_automatic_positions). -/
+
+namespace F
+open Csvq.Fixed
+
+def FixedSpellable (o : Fixed.Opts) (P : List Nat) (t : Fixed.Table) : Prop :=
+  validFrom 0 P = true ∧ P ≠ [] ∧ t.header.length = P.length ∧ (∀ r ∈ t.rows, r.length = P.length) ∧
+  (o.withoutHeader = false → ∀ h ∈ t.header, ∀ c ∈ h, c ≠ '\r' ∧ c ≠ '\n') ∧
+  (∀ r ∈ t.rows, ∀ f ∈ r, ∀ c ∈ f.contents, c ≠ '\r' ∧ c ≠ '\n') ∧
+  o.ending ≠ some .cr
+
+instance (o : Fixed.Opts) (P : List Nat) (t : Fixed.Table) : Decidable (FixedSpellable o P t) := by
+  unfold FixedSpellable; infer_instance
+
+/-- the records handed to the writer -/
+def frecords (o : Fixed.Opts) (t : Fixed.Table) : List (List Field) :=
+  if o.withoutHeader then t.rows else headerFields t.header :: t.rows
+
+/-- **Refuse or spell** (fixed-length, explicit positions): the table is written if and only if
+    there is a record to write, the positions increase, and every text fits into its column;
+    otherwise the answer is an error. -/
+theorem fixed_refuse_or_spell (wd : Char → Nat) (o : Fixed.Opts) (P : List Nat) (t : Fixed.Table)
+    (ho : o.positions = some P) (hrect : ∀ r ∈ frecords o t, r.length = P.length) :
+    (∃ b, fileFixed wd o t = .ok b) ↔
+      (frecords o t ≠ [] ∧ (validFrom 0 P = true ∧ ∀ r ∈ frecords o t, Fits wd 0 P r)) := by
+  unfold fileFixed encodeFixed
+  simp only [ho]
+  change (∃ b, (match (match frecords o t with
+      | [] => Except.error EncErr.dataEmpty
+      | recs => writeAll wd false o.lb P recs) with
+    | .ok cs => Except.ok (cs ++ endingChars o.ending)
+    | .error e => .error e) = .ok b) ↔ _
+  cases hr : frecords o t with
+  | nil => simp
+  | cons r rs =>
+    simp only [ne_eq, reduceCtorEq, not_false_eq_true, true_and]
+    have hall := writeAll_isOk wd false o.lb P (r :: rs)
+    have hrec : ∀ x ∈ r :: rs, ((∃ s, writeRecord wd false P x = .ok s) ↔ (validFrom 0 P = true ∧ Fits wd 0 P x)) :=
+      fun x hx => writeFields_isOk wd false P x true 0 (hrect x (hr ▸ hx))
+    constructor
+    · rintro ⟨b, hb⟩
+      cases hw : writeAll wd false o.lb P (r :: rs) with
+      | error e => rw [hw] at hb; cases hb
+      | ok txt =>
+        have h := hall.mp ⟨txt, hw⟩
+        refine ⟨((hrec r (by simp)).mp (h r (by simp))).1, fun x hx => ((hrec x hx).mp (h x hx)).2⟩
+    · rintro ⟨hv, hf⟩
+      obtain ⟨txt, hw⟩ := hall.mpr (fun x hx => (hrec x hx).mpr ⟨hv, hf x hx⟩)
+      exact ⟨_, by rw [hw]⟩
+
+/-- **Round trip** (fixed-length, explicit positions, pinned code): whatever the writer writes for a
+    table without CR/LF in its texts reads back, with the same positions, as `canon`. -/
+theorem fixed_roundtrip_partial (wd : Char → Nat) (hwd : ∀ c, 1 ≤ wd c) (hw : wd ' ' = 1)
+    (o : Fixed.Opts) (P : List Nat) (t : Fixed.Table) (ho : o.positions = some P)
+    (hs : FixedSpellable o P t) (b : List Char) (hb : fileFixed wd o t = .ok b) :
+    decodeFixed wd o P b = .ok (Fixed.canon o t) := by
+  obtain ⟨hv, hP, hhl, hrl, hhnb, hrnb, hend⟩ := hs
+  unfold fileFixed encodeFixed at hb
+  simp only [ho] at hb
+  change (match (match frecords o t with
+      | [] => Except.error EncErr.dataEmpty
+      | recs => writeAll wd false o.lb P recs) with
+    | .ok cs => Except.ok (cs ++ endingChars o.ending)
+    | .error e => .error e) = .ok b at hb
+  have hok : ∀ x ∈ frecords o t, x.length = P.length ∧ ∀ f ∈ x, NoBreak f.contents := by
+    intro x hx
+    unfold frecords at hx
+    cases hw' : o.withoutHeader <;> simp only [hw', Bool.false_eq_true, if_false, if_true] at hx
+    · rcases List.mem_cons.mp hx with rfl | hx
+      · refine ⟨by simp [headerFields, hhl], ?_⟩
+        intro f hf
+        simp only [headerFields, List.mem_map] at hf
+        obtain ⟨h, hh, rfl⟩ := hf
+        exact hhnb hw' h hh
+      · exact ⟨hrl x hx, hrnb x hx⟩
+    · exact ⟨hrl x hx, hrnb x hx⟩
+  cases hr : frecords o t with
+  | nil => rw [hr] at hb; cases hb
+  | cons r more =>
+    rw [hr] at hb hok
+    simp only [writeAll] at hb
+    cases hs1 : writeRecord wd false P r with
+    | error e => rw [hs1] at hb; cases hb
+    | ok s =>
+      rw [hs1] at hb
+      simp only at hb
+      cases hm : writeMore wd false o.lb P more with
+      | error e => rw [hm] at hb; cases hb
+      | ok rest =>
+        rw [hm] at hb
+        simp only at hb
+        injection hb with hb
+        subst hb
+        obtain ⟨σ, hσ, hrecs⟩ := Fixed.run_rows wd hwd hw P hv hP o.lb o.ending hend more r { cols := P } s rest
+          hok hs1 hm
+        have hread : readAll wd P (s ++ rest ++ endingChars o.ending) = .ok σ := by
+          unfold readAll
+          rw [if_neg (by simp [hv]), List.append_assoc]
+          exact hσ
+        unfold decodeFixed
+        rw [hread]
+        simp only [hrecs, List.reverse_append, List.reverse_reverse]
+        have hnil : ({ cols := P } : Fixed.St).recs.reverse = [] := rfl
+        rw [hnil, List.nil_append]
+        unfold frecords at hr
+        unfold Fixed.assemble Fixed.canon
+        cases hw' : o.withoutHeader with
+        | true =>
+          simp only [hw', if_true] at hr ⊢
+          rw [← hr, autofill_autoNames, hhl]
+          simp [rowOf, Fixed.canonCell, List.map_map, Function.comp]
+        | false =>
+          simp only [hw', Bool.false_eq_true, if_false] at hr ⊢
+          simp only [List.cons.injEq] at hr
+          rw [← hr.1, ← hr.2]
+          simp [rowOf, headerFields, Fixed.canonCell, List.map_map, Function.comp]
+
+/-- **Rectangular, for ALL inputs** (fixed-length): whatever the file contains and whatever the
+    positions are, every record of the loaded view has as many fields as the header. -/
+theorem fixed_rectangular (wd : Char → Nat) (o : Fixed.Opts) (P : List Nat) (inp : List Char) (t : DTable)
+    (h : decodeFixed wd o P inp = .ok t) : ∀ row ∈ t.rows, row.length = t.header.length := by
+  unfold decodeFixed at h
+  cases hr : readAll wd P inp with
+  | error e => rw [hr] at h; cases h
+  | ok σ =>
+    rw [hr] at h
+    injection h with h
+    subst h
+    apply Fixed.assemble_rectangular
+    intro rec hrec
+    exact recs_readAll wd P inp σ hr rec (by simpa using hrec)
+
+/-- **No shift** (fixed-length): position (i, j) of what is read back is the canonical form of the
+    text at (i, j). -/
+theorem fixed_no_shift (wd : Char → Nat) (hwd : ∀ c, 1 ≤ wd c) (hw : wd ' ' = 1)
+    (o : Fixed.Opts) (P : List Nat) (t : Fixed.Table) (ho : o.positions = some P)
+    (hs : FixedSpellable o P t) (b : List Char) (hb : fileFixed wd o t = .ok b) :
+    ∃ d, decodeFixed wd o P b = .ok d ∧ d.rows.length = t.rows.length ∧
+      ∀ i j : Nat, (d.rows[i]?.bind fun (r : List DCell) => r[j]?)
+        = (t.rows[i]?.bind fun (r : List Field) => r[j]?).map (Fixed.canonCell o) := by
+  refine ⟨Fixed.canon o t, fixed_roundtrip_partial wd hwd hw o P t ho hs b hb, by simp [Fixed.canon], ?_⟩
+  intro i j
+  simp only [Fixed.canon, List.getElem?_map]
+  cases t.rows[i]? with
+  | none => rfl
+  | some r => simp [List.getElem?_map]
+
+/-- F16: positions 3, 4; the record (`x⏎y`, `2`) fits its columns, is written `x⏎y2`, and reads back
+    as two records (x, NULL), (y, 2). -/
+theorem fixed_linebreak_counterexample :
+    let wd : Char → Nat := fun _ => 1
+    let o : Fixed.Opts := { positions := some [3, 4], withoutHeader := true }
+    let t : Fixed.Table := ⟨[['a'], ['b']], [[⟨['x', '\n', 'y'], .left⟩, ⟨['2'], .right⟩]]⟩
+    fileFixed wd o t = .ok ['x', '\n', 'y', '2'] ∧
+    decodeFixed wd o [3, 4] ['x', '\n', 'y', '2']
+      = .ok ⟨[['c', '1'], ['c', '2']], [[some ['x'], none], [some ['y'], some ['2']]]⟩ := by
+  refine ⟨rfl, rfl⟩
+
+/-- F16: automatic positions, no header, a column of empty texts: refused. -/
+theorem fixed_empty_column_counterexample :
+    let wd : Char → Nat := fun _ => 1
+    let o : Fixed.Opts := { withoutHeader := true }
+    let t : Fixed.Table := ⟨[['a'], ['b']], [[⟨[], .left⟩, ⟨['2'], .right⟩]]⟩
+    fileFixed wd o t = .error .position := by
+  rfl
+
+/-- non-vacuity: left / centre / right alignment, inner and edge blanks, an empty text -/
+example :
+    let wd : Char → Nat := fun _ => 1
+    let o : Fixed.Opts := { positions := some [4, 9, 12], lb := .crlf, ending := some .crlf }
+    let t : Fixed.Table := ⟨[['a'], ['b', 'c'], ['d']], [[⟨['x', ' ', 'y'], .left⟩, ⟨['t'], .center⟩, ⟨['7'], .right⟩], [⟨[], .left⟩, ⟨[' ', 'q', ' '], .left⟩, ⟨['4', '2'], .right⟩]]⟩
+    FixedSpellable o [4, 9, 12] t ∧
+    fileFixed wd o t = .ok ['a', ' ', ' ', ' ', 'b', 'c', ' ', ' ', ' ', 'd', ' ', ' ', '\r', '\n', 'x', ' ', 'y', ' ', ' ', ' ', 't', ' ', ' ', ' ', ' ', '7', '\r', '\n', ' ', ' ', ' ', ' ', ' ', 'q', ' ', ' ', ' ', ' ', '4', '2', '\r', '\n'] ∧
+    decodeFixed wd o [4, 9, 12] ['a', ' ', ' ', ' ', 'b', 'c', ' ', ' ', ' ', 'd', ' ', ' ', '\r', '\n', 'x', ' ', 'y', ' ', ' ', ' ', 't', ' ', ' ', ' ', ' ', '7', '\r', '\n', ' ', ' ', ' ', ' ', ' ', 'q', ' ', ' ', ' ', ' ', '4', '2', '\r', '\n']
+      = .ok ⟨[['a'], ['b', 'c'], ['d']], [[some ['x', ' ', 'y'], some ['t'], some ['7']], [none, some ['q'], some ['4', '2']]]⟩ := by
+  refine ⟨by decide, rfl, rfl⟩
+
+end F
 
 end Csvq.C02
